@@ -713,6 +713,17 @@ def model_lines(c):
         if c.op in ("powmod.i64", "powmod.i32"):
             return ["powmod %s %d %d %d %d" % (" ".join(str(i + 1) for i in ix), vs[0], vs[1], c.extra[0], vs[2])
                     for ix, vs in ((fresh_idx, c.vals), (c.idx, c.alias_vals()))]
+    if c.dom == "poly":
+        pop = {"mul": 0, "stdmul": 0, "karamul": 0, "sqr": 1, "reverse": 2, "mulin": 3, "axpy": 4, "axmy": 5, "maxpy": 6,
+               "axpyin": 7, "maxpyin": 8, "axmyin": 9, "mod": 10, "gcd": 11}.get(c.op)
+        if pop is not None or c.op == "divmod":
+            out = []
+            for ix, vs in ((fresh_idx, c.vals), (c.idx, c.alias_vals())):
+                i4 = (list(ix) + [max(ix) + 1 + j for j in range(4)])[:4]
+                v4 = (list(vs) + ["z"] * 4)[:4]
+                head = "pdivmod %d" % c.param if c.op == "divmod" else "poly %d %d" % (c.param, pop)
+                out.append("%s %s %s" % (head, " ".join(str(i + 1) for i in i4), " ".join(str(v) for v in v4)))
+            return out
     if c.dom == "Q":
         qop = {"neg": 0, "inv": 1, "negin": 2, "invin": 3, "op+=": 4, "op-=": 5, "addin": 4, "subin": 5}.get(c.op)
         if qop is not None:
